@@ -71,10 +71,14 @@ Definition flags_ok (st : state) : Prop :=
     i_dying im = false /\ (i_exec im = 0 -> i_deferred im = false) /\
     N.of_nat (phc (ids (i_nodes im))) <= i_exec im.
 
+(* shared trackables are user trackables (never the trackable base of a signal) *)
+Definition shared_ok (st : state) : Prop := Forall (fun e => fst e < 1000) (shared st).
+
 Record WF (st : state) : Prop := mkWF
   { wf_c : WFc st
   ; wf_noclear : noclear st
-  ; wf_flags : flags_ok st }.
+  ; wf_flags : flags_ok st
+  ; wf_shared : shared_ok st }.
 
 Definition quiescent (st : state) : Prop :=
   forall i im, aget i (impls st) = Some im ->
@@ -96,6 +100,7 @@ Proof.
   - intros w i n H. destruct w; discriminate.
   - intros t tr H. discriminate.
   - intros i im H. discriminate.
+  - constructor.
 Qed.
 
 Lemma WF_top_st0 : WF_top st0.
@@ -112,7 +117,8 @@ Record same_heavy (st st' : state) : Prop := mkSH
   ; sh_rid : next_rid st' = next_rid st
   ; sh_nid : next_nid st' = next_nid st
   ; sh_iid : next_iid st' = next_iid st
-  ; sh_ph : next_ph st' = next_ph st }.
+  ; sh_ph : next_ph st' = next_ph st
+  ; sh_shared : shared st' = shared st }.
 
 Lemma same_heavy_refl st : same_heavy st st.
 Proof. constructor; reflexivity. Qed.
@@ -184,7 +190,7 @@ Proof. intros []. unfold var_reps. congruence. Qed.
 Lemma WFstruct_heavy st st' : same_heavy st st' -> WFstruct st -> WFstruct st'.
 Proof.
   intros Hh [ws_keys_slots0 ws_keys_impls0 ws_iid0 ws_nodes0 ws_rids0 ws_good0 ws_vars0]. pose proof (all_reps_heavy _ _ Hh) as Ea. pose proof (var_reps_heavy _ _ Hh) as Ev.
-  destruct Hh as [sh_slots0 sh_sigs0 sh_impls0 sh_rid0 sh_nid0 sh_iid0 sh_ph0]. constructor; rewrite ?Ea, ?Ev; try congruence.
+  destruct Hh as [sh_slots0 sh_sigs0 sh_impls0 sh_rid0 sh_nid0 sh_iid0 sh_ph0 sh_shared0]. constructor; rewrite ?Ea, ?Ev; try congruence.
   - rewrite sh_impls0, sh_iid0. assumption.
   - rewrite sh_impls0. intros i im Hi. destruct (ws_nodes0 i im Hi) as (A & B).
     split; [exact A|].
@@ -579,6 +585,7 @@ Qed.
 Record Casc (st st' : state) : Prop := mkCasc
   { ca_sigs : sigs st' = sigs st
   ; ca_iid : next_iid st' = next_iid st
+  ; ca_shared : shared st' = shared st
   ; ca_tracks : tlive_same st st'
   ; ca_impls : forall i, match aget i (impls st), aget i (impls st') with
                          | Some im, Some im' => impl_same im im'
@@ -588,13 +595,13 @@ Record Casc (st st' : state) : Prop := mkCasc
 
 Lemma Casc_refl st : Casc st st.
 Proof.
-  constructor; [reflexivity|reflexivity|apply tlive_same_refl|].
+  constructor; [reflexivity|reflexivity|reflexivity|apply tlive_same_refl|].
   intro i. destruct (aget i (impls st)); [apply impl_same_refl|exact I].
 Qed.
 
 Lemma Casc_trans a b c : Casc a b -> Casc b c -> Casc a c.
 Proof.
-  intros [S1 N1 T1 I1] [S2 N2 T2 I2]. constructor; [congruence|congruence|eapply tlive_same_trans; eauto|].
+  intros [S1 N1 X1 T1 I1] [S2 N2 X2 T2 I2]. constructor; [congruence|congruence|congruence|eapply tlive_same_trans; eauto|].
   intro i. specialize (I1 i). specialize (I2 i).
   destruct (aget i (impls a)), (aget i (impls b)), (aget i (impls c)); try tauto.
   eapply impl_same_trans; eauto.
@@ -602,13 +609,13 @@ Qed.
 
 Lemma Casc_heavy st st' : same_heavy st st' -> tlive_same st st' -> Casc st st'.
 Proof.
-  intros [sh_slots0 sh_sigs0 sh_impls0 sh_rid0 sh_nid0 sh_iid0 sh_ph0] T. constructor; [assumption|assumption|assumption|].
+  intros [sh_slots0 sh_sigs0 sh_impls0 sh_rid0 sh_nid0 sh_iid0 sh_ph0 sh_shared0] T. constructor; [assumption|assumption|assumption|assumption|].
   intro i. rewrite sh_impls0. destruct (aget i (impls st)); [apply impl_same_refl|exact I].
 Qed.
 
 Lemma Casc_impl_present st st' i : Casc st st' -> (aget i (impls st) <> None <-> aget i (impls st') <> None).
 Proof.
-  intros [ca_sigs0 ca_iid0 ca_tracks0 ca_impls0]. specialize (ca_impls0 i).
+  intros [ca_sigs0 ca_iid0 ca_shared0 ca_tracks0 ca_impls0]. specialize (ca_impls0 i).
   destruct (aget i (impls st)), (aget i (impls st')); try tauto; split; congruence.
 Qed.
 
@@ -648,7 +655,7 @@ Qed.
 Lemma null_watchers_heavy ws st : same_heavy st (null_watchers ws st).
 Proof.
   destruct (null_watchers_fields ws st) as (H1 & H2 & H3 & H4 & H5 & H6 & H7 & H8).
-  constructor; assumption.
+  constructor; try assumption. apply null_watchers_shared.
 Qed.
 
 Lemma null_watchers_tracks ws st : tracks (null_watchers ws st) = tracks st.
@@ -719,7 +726,7 @@ Proof.
   - eapply sig_ok_transfer; [| | |exact Hg].
     + destruct Hh; assumption.
     + exact Ht.
-    + destruct Hh as [sh_slots0 sh_sigs0 sh_impls0 sh_rid0 sh_nid0 sh_iid0 sh_ph0]. rewrite sh_impls0. auto.
+    + destruct Hh as [sh_slots0 sh_sigs0 sh_impls0 sh_rid0 sh_nid0 sh_iid0 sh_ph0 sh_shared0]. rewrite sh_impls0. auto.
   - exact Hw.
 Qed.
 
@@ -805,7 +812,7 @@ Qed.
 Lemma Casc_set_sb l sb' st : Casc st (set_sb l sb' st).
 Proof.
   destruct (set_sb_other_fields l sb' st) as (H1 & H2 & H3 & H4 & H5 & H6 & H7 & H8).
-  constructor; [exact H1|exact H7|apply tlive_tracks_eq; exact H2|].
+  constructor; [exact H1|exact H7|apply set_sb_shared|apply tlive_tracks_eq; exact H2|].
   intro j. destruct l as [s|i n]; unfold set_sb.
   - cbn [impls with_slots]. destruct (aget j (impls st)); [apply impl_same_refl|exact I].
   - destruct (aget i (impls st)) as [im|] eqn:Hi.
@@ -916,8 +923,8 @@ Lemma Casc_of_set_impl st st' i im im' :
   aget i (impls st) = Some im -> impl_same im im' ->
   same_heavy (set_impl i im' st) st' -> tlive_same st st' -> Casc st st'.
 Proof.
-  intros Hi Hsame [sh_slots0 sh_sigs0 sh_impls0 sh_rid0 sh_nid0 sh_iid0 sh_ph0] T. cbn [set_impl slots sigs next_rid next_nid next_iid next_ph with_impls] in *.
-  constructor; [assumption|assumption|assumption|].
+  intros Hi Hsame [sh_slots0 sh_sigs0 sh_impls0 sh_rid0 sh_nid0 sh_iid0 sh_ph0 sh_shared0] T. cbn [set_impl slots sigs next_rid next_nid next_iid next_ph with_impls] in *.
+  constructor; [assumption|assumption|assumption|assumption|].
   intro j. rewrite sh_impls0, aget_set_impl. destruct (N.eqb_spec j i) as [->|Hn].
   - rewrite Hi. exact Hsame.
   - destruct (aget j (impls st)); [apply impl_same_refl|exact I].
@@ -937,7 +944,7 @@ Lemma others_same_refl l st : others_same l st st.
 Proof. split; intros; reflexivity. Qed.
 
 Lemma get_sb_heavy st st' l : same_heavy st st' -> get_sb l st' = get_sb l st.
-Proof. intros [sh_slots0 sh_sigs0 sh_impls0 sh_rid0 sh_nid0 sh_iid0 sh_ph0]. destruct l; unfold get_sb; rewrite ?sh_slots0, ?sh_impls0; reflexivity. Qed.
+Proof. intros [sh_slots0 sh_sigs0 sh_impls0 sh_rid0 sh_nid0 sh_iid0 sh_ph0 sh_shared0]. destruct l; unfold get_sb; rewrite ?sh_slots0, ?sh_impls0; reflexivity. Qed.
 
 Lemma get_sb_set_impl_var i im' st s : get_sb (LVar s) (set_impl i im' st) = get_sb (LVar s) st.
 Proof. reflexivity. Qed.
@@ -961,7 +968,7 @@ Proof.
         rewrite get_sb_set_impl_node. destruct (N.eqb_spec j i) as [->|Hne]; [|reflexivity].
         cbn [i_nodes with_nodes]. rewrite find_node_del_other by congruence.
         rewrite get_sb_node, Hi. reflexivity.
-      * intros j Hj. destruct Hh as [sh_slots0 sh_sigs0 sh_impls0 sh_rid0 sh_nid0 sh_iid0 sh_ph0]. rewrite sh_impls0, aget_set_impl.
+      * intros j Hj. destruct Hh as [sh_slots0 sh_sigs0 sh_impls0 sh_rid0 sh_nid0 sh_iid0 sh_ph0 sh_shared0]. rewrite sh_impls0, aget_set_impl.
         destruct (N.eqb_spec j i) as [->|Hne]; [exfalso; exact (Hj n eq_refl)|reflexivity].
   - eexists. split; [reflexivity|]. split; [eapply WFc_set_impl_flags; eauto|]. split.
     + eapply Casc_of_set_impl; eauto using same_heavy_refl.
@@ -1219,7 +1226,7 @@ Proof.
     - eapply sig_ok_set_track; eauto.
     - eapply watch_ok_ex_transfer; [| | |exact Hw]; reflexivity. }
   assert (Hcasc : Casc st (set_track t (mkTr None false) st2)).
-  { destruct C2 as [ca_sigs0 ca_iid0 ca_tracks0 ca_impls0]. constructor; [exact ca_sigs0|exact ca_iid0| |exact ca_impls0].
+  { destruct C2 as [ca_sigs0 ca_iid0 ca_shared0 ca_tracks0 ca_impls0]. constructor; [exact ca_sigs0|exact ca_iid0|exact ca_shared0| |exact ca_impls0].
     intro t'. destruct (ca_tracks0 t') as (A & B & _). split; [|split].
     - unfold set_track. cbn [tracks with_tracks]. rewrite aget_aset. destruct (N.eqb_spec t' t) as [->|Hn].
         * unfold live_track in Hl. destruct (aget t (tracks st)) as [[x|]|]; try discriminate. split; discriminate.
@@ -1335,6 +1342,7 @@ Record Grow (st st' : state) : Prop := mkGrow
   ; gr_nid : next_nid st' = next_nid st
   ; gr_iid : next_iid st' = next_iid st
   ; gr_ph : next_ph st' = next_ph st
+  ; gr_shared : shared st' = shared st
   ; gr_rid : next_rid st <= next_rid st'
   ; gr_tracks : tlive_same st st' }.
 
@@ -1349,7 +1357,7 @@ Proof. intros [] T. constructor; try assumption. lia. Qed.
 
 Lemma Grow_Casc st st' : Grow st st' -> Casc st st'.
 Proof.
-  intros [gr_sigs0 gr_impls0 gr_nid0 gr_iid0 gr_ph0 gr_rid0 gr_tracks0]. constructor; [assumption|assumption|assumption|]. intro i. rewrite gr_impls0.
+  intros [gr_sigs0 gr_impls0 gr_nid0 gr_iid0 gr_ph0 gr_shared0 gr_rid0 gr_tracks0]. constructor; [assumption|assumption|assumption|assumption|]. intro i. rewrite gr_impls0.
   destruct (aget i (impls st)); [apply impl_same_refl|exact I].
 Qed.
 
@@ -1385,7 +1393,7 @@ Proof.
   - constructor.
     + eapply WFstruct_heavy; eauto.
     + rewrite Ea. exact R2.
-    + eapply sig_ok_transfer; [| | |exact Hg]; [destruct H2; assumption| |destruct H2 as [sh_slots0 sh_sigs0 sh_impls0 sh_rid0 sh_nid0 sh_iid0 sh_ph0]; rewrite sh_impls0; auto].
+    + eapply sig_ok_transfer; [| | |exact Hg]; [destruct H2; assumption| |destruct H2 as [sh_slots0 sh_sigs0 sh_impls0 sh_rid0 sh_nid0 sh_iid0 sh_ph0 sh_shared0]; rewrite sh_impls0; auto].
       eapply tlive_same_trans; [|exact T2]. apply tlive_tracks_eq. reflexivity.
     + eapply watch_ok_ex_transfer; [| | |exact Hw]; [destruct H2; assumption|rewrite C2; reflexivity|rewrite K2; reflexivity].
     + cbn [sb_reps sb_rep optl]. constructor; [|constructor]. split; [|split].
@@ -1533,7 +1541,7 @@ Proof.
     + eapply WFstruct_set_sb; eauto.
       * cbn [sb_reps sb_rep optl]. split; [constructor; [intros []|constructor]|]. split.
         -- constructor; [|constructor]. unfold rep_good in *. rewrite Hid, Hval, Hfn.
-           destruct H2 as [sh_slots0 sh_sigs0 sh_impls0 sh_rid0 sh_nid0 sh_iid0 sh_ph0]. rewrite sh_rid0. exact Pg.
+           destruct H2 as [sh_slots0 sh_sigs0 sh_impls0 sh_rid0 sh_nid0 sh_iid0 sh_ph0 sh_shared0]. rewrite sh_rid0. exact Pg.
         -- intros r' [<-|[]]. right. rewrite Ea2, Hid. exact Pf.
       * cbn [sb_reps sb_rep optl]. constructor; [exact Hdet|constructor].
     + eapply regs_tracks_eq; [apply (set_sb_other_fields (LVar d) _ st2)|].
@@ -1546,7 +1554,7 @@ Proof.
       rewrite !dem_of_app, !dem_app in *. cbn [sb_reps sb_rep optl dem_of map dem].
       unfold refs_of. rewrite Hid, Hfn. lia.
     + apply sig_ok_set_sb. eapply sig_ok_transfer; [| | |exact Hg]; [destruct H2; assumption|exact T2|].
-      destruct H2 as [sh_slots0 sh_sigs0 sh_impls0 sh_rid0 sh_nid0 sh_iid0 sh_ph0]. rewrite sh_impls0. auto.
+      destruct H2 as [sh_slots0 sh_sigs0 sh_impls0 sh_rid0 sh_nid0 sh_iid0 sh_ph0 sh_shared0]. rewrite sh_impls0. auto.
     + eapply watch_set_sb_ex; eauto. intros r Hr0. exists r''. split; [reflexivity|].
       destruct (var_rep_detached _ _ _ _ Hs Hget Hr0) as (_ & Ow). rewrite Ow. intros x [].
   - eapply Grow_trans; [apply Grow_heavy; eauto|apply Grow_set_sb_var].
@@ -1754,6 +1762,7 @@ Proof.
   - constructor.
     + unfold st2, st1. destruct (sb_rep sb); reflexivity.
     + unfold st2, st1. destruct (sb_rep sb); reflexivity.
+    + unfold st2, st1. destruct (sb_rep sb); reflexivity.
     + apply tlive_tracks_eq. unfold st2, st1. destruct (sb_rep sb); reflexivity.
     + intro j. rewrite aget_set_impl. destruct (N.eqb_spec j i) as [->|Hne].
       * rewrite Hi. split; [reflexivity|]. split; [reflexivity|]. split; [reflexivity|]. split; [|split; [reflexivity|]].
@@ -1821,7 +1830,7 @@ Proof.
   split; [eapply WFstruct_heavy; eauto|]. split; [|split].
   - rewrite (all_reps_heavy _ _ Hh). eapply regs_tracks_eq; [apply set_connptr_tracks|exact B].
   - eapply sig_ok_transfer; [| | |exact C]; [destruct Hh; assumption|apply tlive_tracks_eq; apply set_connptr_tracks|].
-    destruct Hh as [sh_slots0 sh_sigs0 sh_impls0 sh_rid0 sh_nid0 sh_iid0 sh_ph0]. rewrite sh_impls0. auto.
+    destruct Hh as [sh_slots0 sh_sigs0 sh_impls0 sh_rid0 sh_nid0 sh_iid0 sh_ph0 sh_shared0]. rewrite sh_impls0. auto.
   - intros w' i n Hp. rewrite get_set_connptr in Hp. destruct (wref_eqb_spec w' w) as [->|Hn].
     + left. left. reflexivity.
     + destruct (D w' i n Hp) as [X|X]; [left; right; exact X|right].
@@ -1946,24 +1955,25 @@ Qed.
 Record FrameI (i : N) (st st' : state) : Prop := mkFrameI
   { fi_sigs : sigs st' = sigs st
   ; fi_iid : next_iid st' = next_iid st
+  ; fi_shared : shared st' = shared st
   ; fi_tracks : tlive_same st st'
   ; fi_others : forall j, j <> i -> aget j (impls st') = aget j (impls st) }.
 
 Lemma FrameI_refl i st : FrameI i st st.
-Proof. constructor; [reflexivity|reflexivity|apply tlive_same_refl|reflexivity]. Qed.
+Proof. constructor; [reflexivity|reflexivity|reflexivity|apply tlive_same_refl|reflexivity]. Qed.
 
 Lemma FrameI_trans i a b c : FrameI i a b -> FrameI i b c -> FrameI i a c.
 Proof.
-  intros [S1 N1 T1 O1] [S2 N2 T2 O2]. constructor; [congruence|congruence|eapply tlive_same_trans; eauto|].
+  intros [S1 N1 X1 T1 O1] [S2 N2 X2 T2 O2]. constructor; [congruence|congruence|congruence|eapply tlive_same_trans; eauto|].
   intros j Hj. rewrite (O2 j Hj). apply O1. exact Hj.
 Qed.
 
 Lemma FrameI_heavy i st st' : same_heavy st st' -> tlive_same st st' -> FrameI i st st'.
-Proof. intros [sh_slots0 sh_sigs0 sh_impls0 sh_rid0 sh_nid0 sh_iid0 sh_ph0] T. constructor; [assumption|assumption|exact T|]. intros j _. rewrite sh_impls0. reflexivity. Qed.
+Proof. intros [sh_slots0 sh_sigs0 sh_impls0 sh_rid0 sh_nid0 sh_iid0 sh_ph0 sh_shared0] T. constructor; [assumption|assumption|assumption|exact T|]. intros j _. rewrite sh_impls0. reflexivity. Qed.
 
 Lemma FrameI_set_impl i im' st : FrameI i st (set_impl i im' st).
 Proof.
-  constructor; [reflexivity|reflexivity|apply tlive_tracks_eq; reflexivity|]. intros j Hj. rewrite aget_set_impl.
+  constructor; [reflexivity|reflexivity|reflexivity|apply tlive_tracks_eq; reflexivity|]. intros j Hj. rewrite aget_set_impl.
   destruct (N.eqb_spec j i); [contradiction|reflexivity].
 Qed.
 
@@ -1974,7 +1984,7 @@ Lemma FrameI_Casc i st st' : FrameI i st st' ->
   | _, _ => False
   end -> Casc st st'.
 Proof.
-  intros [S N0 T O] Hi. constructor; [exact S|exact N0|exact T|]. intro j. destruct (N.eq_dec j i) as [->|Hn]; [exact Hi|].
+  intros [S N0 X0 T O] Hi. constructor; [exact S|exact N0|exact X0|exact T|]. intro j. destruct (N.eq_dec j i) as [->|Hn]; [exact Hi|].
   rewrite (O j Hn). destruct (aget j (impls st)); [apply impl_same_refl|exact I].
 Qed.
 
@@ -1986,7 +1996,7 @@ Proof.
   - destruct (rep_disconnect_ok (LNode i n) st Hc) as (st1 & E1 & W1 & C1 & (_ & O1)).
     rewrite E1. cbn [rbind]. destruct (IH st1 W1) as (st2 & E2 & W2 & C2 & F2).
     exists st2. split; [exact E2|]. split; [exact W2|]. split; [eapply Casc_trans; eauto|].
-    eapply FrameI_trans; [|exact F2]. constructor; [exact (ca_sigs _ _ C1)|exact (ca_iid _ _ C1)|exact (ca_tracks _ _ C1)|].
+    eapply FrameI_trans; [|exact F2]. constructor; [exact (ca_sigs _ _ C1)|exact (ca_iid _ _ C1)|exact (ca_shared _ _ C1)|exact (ca_tracks _ _ C1)|].
     intros j Hj. apply O1. intros n' X. inversion X. congruence.
 Qed.
 
@@ -2077,9 +2087,9 @@ Proof.
   destruct (clear_nodes_ok i im2 (with_nodes [] im2) st2 W2 Hi2 eq_refl) as (st4 & E4 & W4 & H4 & T4).
   rewrite E4. cbn [rbind]. eexists. split; [reflexivity|].
   assert (Hi4 : aget i (impls st4) = Some (with_nodes [] im2)).
-  { destruct H4 as [sh_slots0 sh_sigs0 sh_impls0 sh_rid0 sh_nid0 sh_iid0 sh_ph0]. rewrite sh_impls0, aget_set_impl, N.eqb_refl. reflexivity. }
+  { destruct H4 as [sh_slots0 sh_sigs0 sh_impls0 sh_rid0 sh_nid0 sh_iid0 sh_ph0 sh_shared0]. rewrite sh_impls0, aget_set_impl, N.eqb_refl. reflexivity. }
   assert (Hsig4 : sigs st4 = sigs st).
-  { destruct H4 as [sh_slots0 sh_sigs0 sh_impls0 sh_rid0 sh_nid0 sh_iid0 sh_ph0]. rewrite sh_sigs0. cbn [sigs set_impl with_impls]. rewrite (fi_sigs _ _ _ F2). reflexivity. }
+  { destruct H4 as [sh_slots0 sh_sigs0 sh_impls0 sh_rid0 sh_nid0 sh_iid0 sh_ph0 sh_shared0]. rewrite sh_sigs0. cbn [sigs set_impl with_impls]. rewrite (fi_sigs _ _ _ F2). reflexivity. }
   split; [|split].
   - destruct W4 as [Hs Hr Hg Hw]. constructor.
     + eapply WFstruct_del_impl; eauto.
@@ -2095,11 +2105,12 @@ Proof.
       * rewrite aget_adel_other by exact Hne. exact A1.
   - constructor.
     + cbn [sigs with_impls]. exact Hsig4.
-    + cbn [next_iid with_impls]. destruct H4 as [sh_slots0 sh_sigs0 sh_impls0 sh_rid0 sh_nid0 sh_iid0 sh_ph0]. rewrite sh_iid0. cbn [next_iid set_impl with_impls]. exact (fi_iid _ _ _ F2).
+    + cbn [next_iid with_impls]. destruct H4 as [sh_slots0 sh_sigs0 sh_impls0 sh_rid0 sh_nid0 sh_iid0 sh_ph0 sh_shared0]. rewrite sh_iid0. cbn [next_iid set_impl with_impls]. exact (fi_iid _ _ _ F2).
+    + cbn [shared with_impls]. rewrite (sh_shared _ _ H4). cbn [shared set_impl with_impls]. exact (fi_shared _ _ _ F2).
     + eapply tlive_same_trans; [apply (fi_tracks _ _ _ (FrameI_set_impl i im1 st))|].
       eapply tlive_same_trans; [exact (fi_tracks _ _ _ F2)|]. exact T4.
     + intros j Hj. cbn [impls with_impls]. rewrite aget_adel_other by exact Hj.
-      destruct H4 as [sh_slots0 sh_sigs0 sh_impls0 sh_rid0 sh_nid0 sh_iid0 sh_ph0]. rewrite sh_impls0, aget_set_impl. destruct (N.eqb_spec j i); [contradiction|].
+      destruct H4 as [sh_slots0 sh_sigs0 sh_impls0 sh_rid0 sh_nid0 sh_iid0 sh_ph0 sh_shared0]. rewrite sh_impls0, aget_set_impl. destruct (N.eqb_spec j i); [contradiction|].
       rewrite (fi_others _ _ _ F2 j Hj). unfold st1. rewrite aget_set_impl.
       destruct (N.eqb_spec j i); [contradiction|reflexivity].
   - cbn [impls with_impls]. apply aget_adel_same. exact (ws_keys_impls _ (wc_struct _ W4)).
@@ -2174,8 +2185,9 @@ Proof.
   assert (Himpls : impls st1 = impls (set_impl i (with_nodes (del_node n (i_nodes im0)) im0) st0)) by (destruct H1; assumption).
   split; [|split; [|split; [|split; [|split; [|split; [|split]]]]]].
   - constructor.
-    + destruct H1 as [sh_slots0 sh_sigs0 sh_impls0 sh_rid0 sh_nid0 sh_iid0 sh_ph0]. rewrite sh_sigs0. cbn [sigs set_impl with_impls]. exact (ca_sigs _ _ C0).
-    + destruct H1 as [sh_slots0 sh_sigs0 sh_impls0 sh_rid0 sh_nid0 sh_iid0 sh_ph0]. rewrite sh_iid0. cbn [next_iid set_impl with_impls]. exact (ca_iid _ _ C0).
+    + destruct H1 as [sh_slots0 sh_sigs0 sh_impls0 sh_rid0 sh_nid0 sh_iid0 sh_ph0 sh_shared0]. rewrite sh_sigs0. cbn [sigs set_impl with_impls]. exact (ca_sigs _ _ C0).
+    + destruct H1 as [sh_slots0 sh_sigs0 sh_impls0 sh_rid0 sh_nid0 sh_iid0 sh_ph0 sh_shared0]. rewrite sh_iid0. cbn [next_iid set_impl with_impls]. exact (ca_iid _ _ C0).
+    + rewrite (sh_shared _ _ H1). cbn [shared set_impl with_impls]. exact (ca_shared _ _ C0).
     + eapply tlive_same_trans; [exact (ca_tracks _ _ C0)|exact T1].
     + intros j Hj. rewrite Himpls, aget_set_impl. destruct (N.eqb_spec j i); [contradiction|].
       apply I0. intros n' X. inversion X. congruence.
@@ -2388,7 +2400,7 @@ Proof.
     set (imc := with_nodes [] (with_deferred (i_deferred im) im2)).
     destruct (clear_nodes_ok i im2 imc st2 W2 Hi2 eq_refl) as (st3 & E3 & W3 & H3 & T3).
     rewrite E3. cbn [rbind].
-    assert (Hi3 : aget i (impls st3) = Some imc) by (destruct H3 as [sh_slots0 sh_sigs0 sh_impls0 sh_rid0 sh_nid0 sh_iid0 sh_ph0]; rewrite sh_impls0, aget_set_impl, N.eqb_refl; reflexivity).
+    assert (Hi3 : aget i (impls st3) = Some imc) by (destruct H3 as [sh_slots0 sh_sigs0 sh_impls0 sh_rid0 sh_nid0 sh_iid0 sh_ph0 sh_shared0]; rewrite sh_impls0, aget_set_impl, N.eqb_refl; reflexivity).
     destruct (unreference_exec_ok i imc st3 W3 Hi3) as (st' & E' & W' & F' & P' & _).
     exists st'. split; [exact E'|]. split; [exact W'|].
     assert (Est' : st' = set_impl i (with_exec (i_exec imc - 1) imc) st3).
